@@ -264,6 +264,48 @@ judge(px, 'RLIMIT_NOFILE=64, 240 idle connections opened and closed again', 'des
 samples.append({'descriptor_exhaustion': {'nofile': 64, 'opened': len(conns)}})
 px.stop()
 
+# ---- (iii-b) requests that fail while their upstream socket is being set up must give back what they took: UDP
+#      requests whose destination the kernel refuses to connect to (broadcast address), TCP requests to a closed port,
+#      requests refused by an upstream proxy - 60 of each; the process's descriptor count returns to where it was
+px = start()
+def nfds():
+    try:
+        return len(os.listdir(f'/proc/{px.proc.pid}/fd'))
+    except OSError:
+        return -1
+probes(px)
+time.sleep(1.2)
+fd0 = nfds()
+leaks = {}
+def udp_to(dest):
+    try:
+        s_, code, head, rest = http_connect(ports['http'], dest, extra_headers=b'Proxy-Protocol: udp\r\n', timeout=4)
+        s_.close()
+    except OSError:
+        pass
+def tcp_to(dest):
+    try:
+        s_, code, head, rest = http_connect(ports['http'], dest, timeout=4)
+        s_.close()
+    except OSError:
+        pass
+closed_p = free_port()
+for name, fn, dest in (('udp-to-broadcast-address', udp_to, '255.255.255.255:9'), ('udp-to-unroutable-v6', udp_to, '[ff02::1%9]:9'), ('tcp-to-closed-port', tcp_to, f'127.0.0.1:{closed_p}'),
+                       ('refused-by-upstream-proxy', tcp_to, 'no.test:80'), ('upstream-proxy-closes', tcp_to, 'close.test:80')):
+    before = nfds()
+    for i in range(60):
+        fn(dest)
+    time.sleep(1.6)
+    after = nfds()
+    leaks[name] = (before, after)
+    evals += 1
+    distinct.add(('fd-leak', name, after - before > 10))
+    if before >= 0 and after - before > 10:
+        chk.violation('process', f'descriptors-leaked:{name}', f'60 requests of kind {name} ({dest}): the proxy held {before} descriptors before and {after} 1.6 s after the last one', {'kind': name, 'before': before, 'after': after})
+judge(px, 'after 300 failing requests', 'failing-requests', {})
+samples.append({'descriptors_after_failing_requests': {k: list(v) for k, v in leaks.items()}, 'at_start': fd0})
+px.stop()
+
 # ---- (v) the tproxy UDP listener (full cone) in front of an upstream that answers with hostile frames. Needs
 #      IP_TRANSPARENT; where the listener cannot start the scenario is skipped (recorded in the evidence)
 def evil_frames(c, a, rec):
